@@ -97,6 +97,10 @@ MODELS = [
           ('note', S('n')), ('extra-1', Q(I(1)))),
         M(customer_name=S('x'), items=Q(M(item_id=S('i'), price=F(1.0)))),
     ]),
+    ('job', Z.Job, [Z.Job], [
+        M(name=S('j'), retries=Q(I(1), I(2), I(3)), tags=Q(S('a'), S('b')),
+          limits=M(cpu=F(1.5), mem=F(2.5))),
+    ]),
     ('extra_default', Z.ExtraHolder, [Z.ExtraHolder, Z.ExtraDef, Z.Alt], [
         M(u=M(a=I(1), b=S('x'), more=I(2)), v=M(a=I(3))),
     ]),
@@ -121,8 +125,9 @@ MODELS = [
     ]),
 ]
 CORE = {m[0] for m in MODELS if not m[0].startswith('trap_')
-        and m[0] not in ('order', 'typed', 'req4', 'firm', 'extra_default')}
-GROUP_C02 = (CORE - {'perm'}) | {'order', 'firm', 'extra_default'}
+        and m[0] not in ('order', 'typed', 'req4', 'firm', 'extra_default',
+                         'job')}
+GROUP_C02 = (CORE - {'perm'}) | {'order', 'firm', 'extra_default', 'job'}
 GROUP_C04 = {'trap_loose', 'trap_any', 'trap_dict', 'trap_typed', 'loose',
              'top_any', 'trap_sav'}
 MODEL_IDX = {m[0]: i for i, m in enumerate(MODELS)}
